@@ -222,10 +222,15 @@ func c02CheckActions(o *notation.VerificationOutcome, lv c02Level) {
 	}
 }
 
+// c02CritKey: the key of the critical attribute drawn last - an unrelated key, or one that merely resembles
+// the two keys the verification plugin protocol reserves (they are reserved exactly, not as prefixes).
+var c02CritKey = "com.example.crit"
+
 func c02ExtAttrs(shape int) []signature.Attribute {
 	switch shape {
 	case 1:
-		return []signature.Attribute{{Key: "com.example.crit", Critical: true, Value: "v"}}
+		c02CritKey = []string{"com.example.crit", HeaderVerificationPlugin + "Policy", HeaderVerificationPluginMinVersion + ".v2"}[vr.Choice("criticalAttributeKey", 3)]
+		return []signature.Attribute{{Key: c02CritKey, Critical: true, Value: "v"}}
 	case 2:
 		return []signature.Attribute{{Key: "com.example.info", Critical: false, Value: "v"}}
 	case 3:
@@ -398,7 +403,7 @@ func c02Plugin(pre bool) {
 			resp.VerificationResults[pluginframework.CapabilityRevocationCheckVerifier] = &pluginframework.VerificationResult{Success: okRC}
 		}
 		if processed {
-			resp.ProcessedAttributes = []interface{}{"com.example.crit", "com.example.info"}
+			resp.ProcessedAttributes = []interface{}{c02CritKey, "com.example.info"}
 		}
 		plug.response = resp
 	}
